@@ -60,7 +60,11 @@ def build(targets, flavour="asan"):
     fcntl.flock(lock, fcntl.LOCK_EX)
     try:
         t0 = time.time()
-        if not os.path.exists(os.path.join(bdir, "build.ninja")):
+        need_configure = not os.path.exists(os.path.join(bdir, "build.ninja"))
+        if not need_configure:
+            ninja_txt = open(os.path.join(bdir, "build.ninja"), errors="replace").read()
+            need_configure = any(t != "all" and ("/" + t + ".dir/") not in ninja_txt for t in targets)
+        if need_configure:
             cmd = ["cmake", "-G", "Ninja", "-S", os.path.join(VERIF, "harness"), "-B", bdir,
                    "-DVERIF_REPO=" + os.path.realpath(REPO),
                    "-DVERIF_SANITIZE=" + ("ON" if flavour == "asan" else "OFF")]
